@@ -59,8 +59,8 @@ def enc_state(st) -> str:
 def enc_edits(edits) -> str:
     out = []
     for e in edits:
-        if e[0] == "value":
-            out.append("(value)")
+        if e[0] in ("value", "swap", "rebind"):
+            out.append("(value)")       # no metadata change (the bindings model sees the difference: c17.bind)
         else:
             out.append(f"(add {enc_key(e[1])})")
     return "(edits " + " ".join(out) + ")"
@@ -295,10 +295,32 @@ def inverse_with_canonical(op, y, orig_bs):
 
 
 # --------------------------------------------------------------------------- running a block on the implementation
+def leaf_keys(td):
+    return sorted((k,) if isinstance(k, str) else tuple(k) for k in td.keys(True, True))
+
+
 def do_edit(y, e, counter):
     if e[0] == "value":
         for v in y.values(True, True):
             v.add_(7)      # in place: the yielded object of a locked original is locked too
+    elif e[0] == "swap":
+        # two entries exchanged: REBINDING (each path now names the tensor the other one named)
+        ks = leaf_keys(y)
+        if len(ks) >= 2:
+            a, b = ks[counter % len(ks)], ks[(counter + 1) % len(ks)]
+            va, vb = y.get(a), y.get(b)
+            y.set(a, vb)
+            y.set(b, va)
+    elif e[0] == "rebind":
+        ks = leaf_keys(y)
+        k = ks[counter % len(ks)]
+        old = y.get(k)
+        if e[1] == "dtype":
+            y.set(k, old.to(torch.float32) * 0.5 + 0.25)
+        elif e[1] == "feat":
+            y.set(k, torch.full(tuple(y.batch_size) + (3,), 77 + counter, dtype=torch.int64))
+        else:
+            y.set(k, old.clone() + 1000)
     else:
         k = e[1]
         y[k if len(k) > 1 else k[0]] = torch.full(tuple(y.batch_size), 50 + counter, dtype=torch.int64)
@@ -383,11 +405,13 @@ def canon_inverse_call(call):
     return [name, out]
 
 
-def run_block(st, name, args, kwargs, edits, limit=30.0, recorder=None):
+def run_block(st, name, args, kwargs, edits, limit=30.0, recorder=None, canon_op=None):
     """returns (answer, td_after, yielded_meta, before_clone, y_modified_clone_or_None)"""
     td = build(st)
     before = td.clone()
     ymeta = None
+    binds = {"out": ptrs(td), "objs": {k: td.get(k) for k in leaf_keys(td)}, "inv": None}
+    _canon = [canon_op] if canon_op is not None and canon_op[0] not in ("lock_", "unlock_") and canon_op[-1] != "malformed" else []
     try:
         with time_limit(limit):
             cm = getattr(td, name)(*args, **kwargs)
@@ -397,23 +421,53 @@ def run_block(st, name, args, kwargs, edits, limit=30.0, recorder=None):
                     do_edit(y, e, i)
                 ymod = y.clone() if y is not td else None
                 is_self = y is td
+                binds["y"] = ptrs(y)
+                if is_self:
+                    binds["out"] = binds["y"]      # the edits were made on the original itself
+                try:
+                    # the inverse image computed by hand with canonical arguments on the LIVE yielded object: its entries are views of
+                    # (or the very) tensors the yielded object holds, so their storage identifies them
+                    canon_op = _canon[0] if _canon else None
+                    binds["inv"] = ptrs(inverse_with_canonical(canon_op, y, st[0])) if canon_op is not None and not is_self else None
+                except Exception:  # noqa: BLE001
+                    binds["inv"] = None
     except Exception as e:  # noqa: BLE001
-        return ["err", err_class(e)], td, ymeta, before, None, e
-    return ["ok", meta(td)], td, ymeta, before, (ymod, is_self), None
+        return ["err", err_class(e)], td, ymeta, before, None, e, None
+    binds["after"] = ptrs(td)
+    binds["same_obj"] = {k: (td.get(k) is binds["objs"].get(k)) for k in leaf_keys(td)}
+    return ["ok", meta(td)], td, ymeta, before, (ymod, is_self), None, binds
+
+
+def ptrs(td):
+    """leaf path -> storage pointer (identity of the tensor data a path is bound to; the states have no zero-sized tensors)"""
+    return {k: td.get(k).untyped_storage().data_ptr() for k in leaf_keys(td)}
+
+
+def enc_binds(b, ids):
+    return "(binds " + " ".join(f"({enc_key(k)} {ids.setdefault(p, len(ids) + 1)})" for k, p in sorted(b.items())) + ")"
+
+
+def dec_binds(sx):
+    return sorted((tuple("".join(chr(c) for c in comp) for comp in k), int(i)) for k, i in sx[1:])
 
 
 def oracle(run, st, op, args, kwargs, edits, res, site="ctx"):
     """original after the block == original before, updated with inverse_op(modified yielded) (canonical args)"""
-    ans, td, ymeta, before, ym, exc = res
+    ans, td, ymeta, before, ym, exc, binds = res
     case = {"op": list(op), "args": list(args), "kwargs": kwargs, "edits": edits, "state": enc_state(st)}
     name = op[0]
     if ans[0] == "err":
         return None   # decided by the caller (it knows whether the canonical call is valid)
     ymod, is_self = ym
+    # the lock state of the original AND of every nested tensordict in it is what it was before the block
+    from tensordict.base import is_tensor_collection
+    subs = [(k, v) for k, v in td.items(True, False) if is_tensor_collection(v)]
+    off = [k for k, v in subs if bool(v.is_locked) != st[3]]
+    if bool(td.is_locked) != st[3] or off:
+        run.oracle_fail(site, case, f"lock state not as before the block: is_locked={td.is_locked} (was {st[3]}), nested with another state: {off[:3]}",
+                        f"{name}:lock-not-reverted")
+        return False
     if name in ("lock_", "unlock_"):
-        if td.is_locked != st[3]:
-            run.oracle_fail(site, case, f"lock state not reverted: is_locked={td.is_locked}, was {st[3]}", f"{name}:lock-not-reverted")
-            return False
         run.oracle_ok(site)
         return True
     src = td if is_self else ymod
@@ -441,9 +495,29 @@ def oracle(run, st, op, args, kwargs, edits, res, site="ctx"):
     for k in exp.keys(True, True):
         if k not in inv_keys:
             continue    # entries the inverse image does not name keep their tensors (possibly edited in place through shared storage)
-        if not torch.equal(td.get(k), exp.get(k)):
+        got, want = td.get(k), exp.get(k)
+        if got.dtype != want.dtype or tuple(got.shape) != tuple(want.shape):
+            run.oracle_fail(site, case, f"{k}: dtype/shape {got.dtype} {tuple(got.shape)} but the inverse image of the modified object has "
+                            f"{want.dtype} {tuple(want.shape)}", f"{name}:dtype-shape")
+            return False
+        if not torch.equal(got, want):
             run.oracle_fail(site, case, f"value of {k} differs from the inverse image of the modified object", f"{name}:value")
             return False
+    # bindings: "in place when the original is locked" = every path still names the very tensor object it named before;
+    # an unlocked original holds the ENTRIES of the inverse image (same storage as the modified yielded object), not copies into its old tensors
+    if binds is not None and not is_self:
+        if st[3]:
+            moved = [k for k, same in binds["same_obj"].items() if k in binds["objs"] and not same]
+            if moved:
+                run.oracle_fail(site, case, f"locked original: {moved[0]} is bound to another tensor object after the block (must be written in place)",
+                                f"{name}:locked-rebound")
+                return False
+        elif binds.get("inv") is not None:
+            for k, ptr in binds["inv"].items():
+                if binds["after"].get(k) != ptr:
+                    run.oracle_fail(site, case, f"unlocked original: {k} is not bound to the entry of the inverse image of the modified object "
+                                    "(the data was copied into another tensor)", f"{name}:unlocked-not-rebound")
+                    return False
     run.oracle_ok(site)
     return True
 
@@ -513,8 +587,10 @@ def same_td(a, b):
 
 
 # --------------------------------------------------------------------------- extended domain: other container kinds
-def build_lazy(st):
-    """a lazy stack whose dense form is build(st): stacked along dim 0 (needs a non-empty first batch dim)"""
+def build_lazy(st, lock=None):
+    """a lazy stack whose dense form is build(st): stacked along dim 0 (needs a non-empty first batch dim).
+    lock in {None (= st[3] through the stack), 'no', 'stack' (lz.lock_()), 'members' (members locked before stacking: the stack's
+    `_is_locked` is None and `is_locked` is derived), 'relocked' (stack locked, unlocked, members locked again one by one)}"""
     from tensordict import LazyStackedTensorDict
     from tensordict import TensorDict
     bs, names, keys, _ = st
@@ -527,7 +603,15 @@ def build_lazy(st):
             full = (torch.arange(numel(shape), dtype=torch.int64) + 1000 * (i + 1)).reshape(shape)
             m[k if len(k) > 1 else k[0]] = full[j].clone()
         parts.append(m)
+    if lock == "members":
+        for m in parts:
+            m.lock_()
     lz = LazyStackedTensorDict(*parts, stack_dim=0)
-    if st[3]:
+    if lock == "stack" or (lock is None and st[3]):
         lz.lock_()
+    elif lock == "relocked":
+        lz.lock_()
+        lz.unlock_()
+        for m in parts:
+            m.lock_()
     return lz
